@@ -91,6 +91,20 @@ def merge_obs(paths, dest):
     return n
 
 
+def split_ndjson(path, chunk, header=False):
+    """Splits an ndjson file into chunk-sized parts (each part repeats the first line if header)."""
+    lines = open(path).read().splitlines(True)
+    head, body = (lines[:1], lines[1:]) if header else ([], lines)
+    parts = []
+    for k in range(0, max(len(body), 1), chunk):
+        p = f"{path}.part{k // chunk}"
+        with open(p, "w") as f:
+            f.writelines(head)
+            f.writelines(body[k:k + chunk])
+        parts.append(p)
+    return parts
+
+
 VERDICT_RE = re.compile(r'^<<"V", (\d+), "([^"]*)", "([^"]*)", "([^"]*)">>', re.M)
 
 
